@@ -79,6 +79,41 @@ def own_part(ck, tier):
                     break
 
 
+def reload_part(ck, tier):
+    """read-outs of a sampler that was saved and reloaded are those of the original (every burn / thin of a small grid, and get_interval)"""
+    import tempfile
+    from harness.c03 import GaussPost
+    for kind in ("gibbs", "metropolis", "pca", "hmc", "ensemble"):
+        ch = _mk_chain(kind, 23 + seed())
+        cname = type(ch).__name__
+        try:
+            with contextlib.redirect_stdout(io.StringIO()):
+                ch.advance(3 if kind == "ensemble" else 11)
+                with tempfile.TemporaryDirectory() as d:
+                    ch.save(d + "/c.npz")
+                    post = GaussPost(2)
+                    ch2 = type(ch).load(d + "/c.npz", posterior=post, **({"grad": post.grad} if kind == "hmc" else {}))
+        except Exception as ex:
+            ck.violation("save / load raised", {"class": cname, "error": repr(ex)[:200]}, site=f"{cname}.load")
+            continue
+        for burn in (0, 1, 4, 12, 40):
+            for thin in (1, 2, 5):
+                ck.case(("reload-readout", kind, burn, thin))
+                try:
+                    a = (np.asarray(ch.get_sample(burn=burn, thin=thin)), np.asarray(ch.get_probabilities(burn=burn, thin=thin)),
+                         np.asarray(ch.get_parameter(1, burn=burn, thin=thin)))
+                    b = (np.asarray(ch2.get_sample(burn=burn, thin=thin)), np.asarray(ch2.get_probabilities(burn=burn, thin=thin)),
+                         np.asarray(ch2.get_parameter(1, burn=burn, thin=thin)))
+                except Exception as ex:
+                    ck.violation("read-out of a reloaded sampler raised", {"class": cname, "burn": burn, "thin": thin, "error": repr(ex)[:200]},
+                                 site=f"{cname}.readout")
+                    continue
+                if not all(x.shape == y.shape and np.array_equal(x, y) for x, y in zip(a, b)):
+                    ck.violation("read-outs of a saved and reloaded sampler return the same entries burn, burn+thin, ... as the original",
+                                 {"class": cname, "burn": burn, "thin": thin, "shapes_original": [list(x.shape) for x in a],
+                                  "shapes_reloaded": [list(y.shape) for y in b]}, site=f"{cname}.readout:reloaded")
+
+
 def run(tier):
     ck = Check("C14", tier)
     ck.rule = ("one case per (sampler class, chain length, burn, thin) read-out compared with the TLC selection, and one per "
@@ -193,6 +228,7 @@ def run(tier):
     for i in bad[:300]:
         ck.violation("IntervalOK: rows with their own log-probabilities, all from the requested top fraction, 2-D, at most the requested count",
                      ev_ident[i], site=f"{ev_ident[i]['class']}.get_interval")
+    reload_part(ck, tier)
     from harness import repotests
     repotests.run_part(ck, "C14")          # traces of the repository's own MCMC tests, judged by TestRunTrace.tla
     return ck.finish()
